@@ -74,7 +74,7 @@ def enum_cases():
                         yield case(strenc(spec), env, pkt, pos)
                         yield case(strenc(spec, term([0])), env, pkt, pos)
         # looked-up lengths (first match wins; no match is an error)
-        for raw in range(0, 4):
+        for raw in range(0, 6):
             e1 = [([cmp("MODE", "==", 0)], 16), ([cmp("MODE", ">=", 1)], 24), ([cmp("LEN", "==", 2, False)], 8)]
             e2 = [([cmp("LEN", "==", 2, False)], 8), ([cmp("MODE", ">=", 1), cmp("LEN", "<", 3)], 24)]
             # a looked-up length of zero is a length like any other (an empty binary field), not "no match"
